@@ -43,8 +43,17 @@ fn device_vals(a: u32, b: u32) -> (u16, [i8; 3]) {
     (9 + (a % 5) as u16, [(h % 4) as i8 - 2, ((h / 4) % 4) as i8 - 2, ((h / 16) % 4) as i8 - 2])
 }
 
+/// A second, disjoint family of device tables (start sizes 20..=24) for value record 2, so that a
+/// record-2 offset that is linked to a record-1 device object is always visible.
+fn device_vals2(a: u32, b: u32) -> (u16, [i8; 3]) {
+    let h = (13 * a + 29 * b + 5) % 64;
+    (20 + (b % 5) as u16, [(h % 4) as i8 - 2, ((h / 4) % 4) as i8 - 2, ((h / 16) % 4) as i8 - 2])
+}
+
 /// style: 0 = xAdv, 1 = xAdv+yPla | xPla, 2 = xAdv + Device, 3 = xAdv + VariationIndex (direct
-/// construction only). Returns (expected pair, builder pair).
+/// construction only), 4 = xAdv + Device | xPla + another Device (both value records carry their
+/// own, distinct device tables), 5 = xAdv + VariationIndex | xPla + Device (direct only).
+/// Returns (expected pair, builder pair).
 fn rule_values(style: u8, a: u32, b: u32) -> ((RVal, RVal), (ValueRecordBuilder, ValueRecordBuilder)) {
     let adv = ((a * 7 + b) % 30000) as i16 + 1;
     let mut e1 = RVal::default();
@@ -65,6 +74,16 @@ fn rule_values(style: u8, a: u32, b: u32) -> ((RVal, RVal), (ValueRecordBuilder,
             let (st, dv) = device_vals(a, b);
             b1 = b1.with_x_advance_device(wl::Device::new(st, st + 2, &dv));
             e1.dev[2] = Some(RDev::expected(st, &dv));
+        }
+        4 => {
+            let (st, dv) = device_vals(a, b);
+            b1 = b1.with_x_advance_device(wl::Device::new(st, st + 2, &dv));
+            e1.dev[2] = Some(RDev::expected(st, &dv));
+            let xp2 = (b % 50) as i16 + 1;
+            let (st2, dv2) = device_vals2(a, b);
+            b2 = b2.with_x_placement(xp2).with_x_placement_device(wl::Device::new(st2, st2 + 2, &dv2));
+            e2.v[0] = xp2;
+            e2.dev[0] = Some(RDev::expected(st2, &dv2));
         }
         _ => {}
     }
@@ -438,6 +457,31 @@ fn build_case(c: &Case) -> (w::PositionLookup, Expect) {
         "pair2_threshold" => {
             let (k, mm) = (c.a as u32, c.b as u32);
             let mut m = PairModel::default();
+            if c.direct == 1 {
+                // hand-made format-2 sub-table: class1 i = {first_glyph(i)} (class 0 is first_glyph(0),
+                // covered but absent from the class def), class2 j+1 = {second_glyph(j)}, class2 0 =
+                // everything else (explicit-format zero records)
+                let cov: wl::CoverageTable = (0..k).map(|i| gid(first_glyph(c.cov, i))).collect();
+                let cd1: wl::ClassDef = (1..k).map(|i| (gid(first_glyph(c.cov, i)), i as u16)).collect();
+                let cd2: wl::ClassDef = (0..mm).map(|j| (gid(second_glyph(j)), j as u16 + 1)).collect();
+                let (_, (f1, f2)) = direct_values(c.style, 0, 0);
+                let zero = w::Class2Record::new(
+                    w::ValueRecord::new().with_explicit_value_format(f1.format()),
+                    w::ValueRecord::new().with_explicit_value_format(f2.format()),
+                );
+                let mut rows = vec![];
+                for i in 0..k {
+                    let mut row = vec![zero.clone()];
+                    for j in 0..mm {
+                        let (e, (w1, w2)) = direct_values(c.style, i, j);
+                        m.add_class_rule(&[first_glyph(c.cov, i)].into(), &[second_glyph(j)].into(), e);
+                        row.push(w::Class2Record::new(w1, w2));
+                    }
+                    rows.push(w::Class1Record::new(row));
+                }
+                let subs = vec![w::PairPos::format_2(cov, cd1, cd2, rows)];
+                return (w::PositionLookup::Pair(wl::Lookup::new(wl::LookupFlag::empty(), subs)), Expect::Pair(m));
+            }
             let mut b = PairPosBuilder::default();
             for i in 0..k {
                 for j in 0..mm {
@@ -488,12 +532,26 @@ fn direct_values(style: u8, i: u32, j: u32) -> ((RVal, RVal), (w::ValueRecord, w
     let mut e1 = RVal::default();
     e1.v[2] = adv;
     let mut w1 = w::ValueRecord::new().with_x_advance(adv);
-    if style == 3 {
+    let mut e2 = RVal::default();
+    let mut w2 = w::ValueRecord::new();
+    if style == 3 || style == 5 {
         let (o, inn) = ((i % 7) as u16, (j % 500) as u16 + (i as u16 % 3) * 1000);
         w1 = w1.with_x_advance_device(wl::VariationIndex::new(o, inn));
         e1.dev[2] = Some(RDev::VarIdx(o, inn));
     }
-    ((e1, RVal::default()), (w1, w::ValueRecord::new()))
+    if style == 4 {
+        let (st, dv) = device_vals(i, j);
+        w1 = w1.with_x_advance_device(wl::Device::new(st, st + 2, &dv));
+        e1.dev[2] = Some(RDev::expected(st, &dv));
+    }
+    if style == 4 || style == 5 {
+        let xp2 = (j % 50) as i16 + 1;
+        let (st2, dv2) = device_vals2(i, j);
+        w2 = w2.with_x_placement(xp2).with_x_placement_device(wl::Device::new(st2, st2 + 2, &dv2));
+        e2.v[0] = xp2;
+        e2.dev[0] = Some(RDev::expected(st2, &dv2));
+    }
+    ((e1, e2), (w1, w2))
 }
 
 pub struct Outcome {
@@ -759,8 +817,8 @@ pub fn part_c(run: &Run) {
     // sweeps the compiled size across n x 64 KiB one record at a time
     let mut cases = vec![];
     let m = 100u64;
-    for style in 0..4u8 {
-        let rec = if style == 0 { 4 } else { 6 };
+    for style in 0..5u8 {
+        let rec = [4u64, 6, 6, 6, 10][style as usize]; // second glyph + value record 1 + value record 2
         for splits in 1..=3u64 {
             // smallest k whose full table exceeds splits x 65536
             let mut k = 2;
@@ -809,12 +867,17 @@ pub fn part_c(run: &Run) {
     let mut cases = vec![];
     let radius = if quick { 3 } else { 12 };
     let mut combos = vec![];
-    for style in 0..3u8 {
+    // styles 4 and 5: BOTH value records of every Class2Record carry their own, distinct
+    // Device / VariationIndex tables (5 by direct construction)
+    for style in [0u8, 1, 2, 4, 5] {
         for cov in [0u8, 2] {
             if quick && cov == 2 && style != 1 {
                 continue;
             }
             for target in 2..=4usize {
+                if quick && style >= 4 && target > 3 {
+                    continue;
+                }
                 combos.push((style, cov, target));
             }
         }
@@ -823,14 +886,14 @@ pub fn part_c(run: &Run) {
         .par_iter()
         .map(|(style, cov, target)| {
             let (style, cov) = (*style, *cov);
-            let probe = move |k: u64| Case { family: "pair2_threshold".into(), a: k, b: 51, last: 0, style, cov, filler: 0, direct: 0 };
+            let probe = move |k: u64| Case { family: "pair2_threshold".into(), a: k, b: 51, last: 0, style, cov, filler: 0, direct: (style == 5) as u8 };
             first_k_with(&probe, *target, 8, 2600)
         })
         .collect();
     {
         {
             for ((style, cov, target), kt) in combos.iter().copied().zip(kts.iter().copied()) {
-                let probe = move |k: u64| Case { family: "pair2_threshold".into(), a: k, b: 51, last: 0, style, cov, filler: 0, direct: 0 };
+                let probe = move |k: u64| Case { family: "pair2_threshold".into(), a: k, b: 51, last: 0, style, cov, filler: 0, direct: (style == 5) as u8 };
                 for filler in [0u8, 2] {
                     if filler == 2 && (target > 2 || quick && style != 0) {
                         continue;
@@ -889,8 +952,8 @@ pub fn part_c(run: &Run) {
     let outs = run_cases(run, &cases, "MarkBasePos threshold sweeps (k single-mark classes x 200 bases, k swept one class at a time across the 1|2, 2|3, 3|4 sub-table boundaries)");
     report_split_histogram(run, "mark_base", &cases, &outs);
     run.bound("threshold_families", json!({
-        "pair1": "k first glyphs x 100 seconds, value styles {xAdv, xAdv+yPla|xPla, xAdv+Device, xAdv+VariationIndex(direct)}, coverage styles {contiguous, alternate, runs}, last pair set swept (quick: crossing +-3 records; thorough: 0..=100), k at 1x/2x/3x 64 KiB, with 0 or 2 filler lookups",
-        "pair2": "k x 51 singleton classes, k within +-3 (quick) / +-12 (thorough) of the first k giving 2, 3, 4 sub-tables; 3 value styles; 0 or 2 filler lookups",
+        "pair1": "k first glyphs x 100 seconds, value styles {xAdv, xAdv+yPla|xPla, xAdv+Device, xAdv+VariationIndex(direct), xAdv+Device|xPla+Device}, coverage styles {contiguous, alternate, runs}, last pair set swept (quick: crossing +-3 records; thorough: 0..=100), k at 1x/2x/3x 64 KiB, with 0 or 2 filler lookups",
+        "pair2": "k x 51 singleton classes, k within +-3 (quick) / +-12 (thorough) of the first k giving 2, 3, 4 sub-tables; 5 value styles incl. two where both value records of every Class2Record have their own distinct Device / VariationIndex tables (one by direct construction); 0 or 2 filler lookups",
         "mark_base": "k single-mark classes x 200 bases, k within +-3 (quick) / +-10 (thorough) of the first k giving 2, 3, 4 sub-tables; 3 anchor styles; 0 or 2 filler lookups",
     }));
 }
